@@ -37,6 +37,9 @@ type schedule struct {
 	Order    []int   `json:"order,omitempty"`
 	Grants   []grant `json:"grants,omitempty"`
 	PoolSeed uint64  `json:"pool_seed,omitempty"`
+	GCAt     []int   `json:"gc_at,omitempty"`
+	GCEnd    int     `json:"gc_end,omitempty"`
+	GCStorm  bool    `json:"gc_storm,omitempty"`
 }
 
 type schedPlan struct {
@@ -68,6 +71,7 @@ type schedStats struct {
 	CondWaits         int   `json:"cond_waits"`
 	ForeignWakes      int   `json:"wakeups_from_unscheduled_goroutines"`
 	RealBlocking      int   `json:"channel_statements_run_detached"`
+	ForcedGC          int   `json:"forced_gc_cycles"`
 	PoolDrops         int64 `json:"pool_items_dropped"`
 	ExplicitFallbacks int   `json:"explicit_fallbacks"`
 }
@@ -395,7 +399,7 @@ func (g *c12Engine) explicitOf(sp *schedPlan) (*schedPlan, error) {
 	}
 	ex := *sp
 	ex.Record = ""
-	ex.Schedule = schedule{Mode: "explicit", Grants: gs, PoolSeed: sp.Schedule.PoolSeed}
+	ex.Schedule = schedule{Mode: "explicit", Grants: gs, PoolSeed: sp.Schedule.PoolSeed, GCAt: sp.Schedule.GCAt, GCEnd: sp.Schedule.GCEnd, GCStorm: sp.Schedule.GCStorm}
 	return &ex, nil
 }
 
@@ -596,7 +600,7 @@ func genSchedPlan(seed uint64, pool []plan.Op, byLang map[int][]int, neutral []i
 		}
 		nt = 0
 	}
-	newHeavy := false
+	newHeavy, gcPressure := false, false
 	if nt > 0 && r.Intn(12) == 0 { // many callers inside NewMnemonic at once (bounded resources such as slot arenas, pools)
 		var news []int
 		for _, i := range cand {
@@ -624,14 +628,19 @@ func genSchedPlan(seed uint64, pool []plan.Op, byLang map[int][]int, neutral []i
 			}
 		}
 		if len(seeds) > 0 {
+			same := pool[seeds[r.Intn(len(seeds))]] // the same derivation asked several times (memoising trees)
 			for t := 0; t < r.Range(2, 3); t++ {
-				ops := []plan.Op{pool[seeds[r.Intn(len(seeds))]]}
+				ops := []plan.Op{same}
 				if r.Bool() {
-					ops = append(ops, pool[cand[r.Intn(len(cand))]])
+					ops = append(ops, pool[seeds[r.Intn(len(seeds))]])
+				}
+				if r.Bool() {
+					ops = append(ops, pool[cand[r.Intn(len(cand))]], same)
 				}
 				sp.Tasks = append(sp.Tasks, ops)
 			}
 			nt = 0
+			gcPressure = true
 		}
 	}
 	for t := 0; t < nt; t++ {
@@ -705,6 +714,14 @@ func genSchedPlan(seed uint64, pool []plan.Op, byLang map[int][]int, neutral []i
 	default:
 		sc.Policy = "serial"
 		sc.Order = r.Perm(len(sp.Tasks))
+	}
+	if gcPressure || r.Intn(20) == 0 { // memory pressure: GC cycles forced at seeded points of the schedule and after it
+		for i := 0; i < r.Range(2, 6); i++ {
+			sc.GCAt = append(sc.GCAt, r.Range(1, 400))
+		}
+		sort.Ints(sc.GCAt)
+		sc.GCEnd = 3
+		sc.GCStorm = gcPressure && r.Bool() // short seed-heavy runs only: a cycle before every grant
 	}
 	if newHeavy { // park every caller inside the device read before anybody gets its bytes
 		sc.Policy, sc.MeanGap, sc.Stay, sc.Order, sc.D = "walk", 5000, 0, nil, 0
@@ -838,6 +855,7 @@ func CheckC12(e *Env) (int, error) {
 				tot.LockAcquires += st.LockAcquires
 				tot.CondWaits += st.CondWaits
 				tot.PoolDrops += st.PoolDrops
+				tot.ForcedGC += st.ForcedGC
 				if out.Foreign > 0 {
 					probes["runs_with_unscheduled_goroutines_of_the_library"]++
 				}
